@@ -158,34 +158,36 @@ def _write_and_invalidate(obj, attr, value, metadata, inplace, skip_invalidation
             invalidate_attrs(obj, attr, metadata.invalidation_map)
 
 
-def invalidate_attrs(
-    obj: Any,
-    attr: str,
-    invalidation_map: Dict[str, Set[str]] = None,
-    _seen: Optional[Set[str]] = None,
-):
+def invalidate_attrs(obj: Any, attr: str, invalidation_map: Dict[str, Set[str]] = None):
     if invalidation_map is None:
         invalidation_map = obj.__spec_class__.invalidation_map
     if not invalidation_map:
         return
-    seen = {attr} if _seen is None else _seen
 
-    # Handle invalidation
-    for invalidatee in invalidation_map.get(attr, set()) | invalidation_map.get(
-        "*", set()
-    ):
-        if invalidatee == attr:
-            continue
-        try:
-            delattr(obj, invalidatee)
-        except AttributeError:
-            # Nothing stored for this attribute (e.g. a property whose cache
-            # has not been filled), but its own dependants are stale too.
-            # (`seen` bounds the walk when dependencies are mutual, e.g. two
-            # attributes both invalidated by "*".)
+    # Collect everything that (transitively) depends on `attr`. Working from
+    # the static map rather than cascading through nested `delattr` calls means
+    # that dependants which currently hold nothing do not cut the chain, and
+    # that mutual dependencies (e.g. via "*") cannot recurse without end.
+    stale, pending, seen = [], [attr], {attr}
+    while pending:
+        current = pending.pop()
+        for invalidatee in sorted(
+            invalidation_map.get(current, set()) | invalidation_map.get("*", set())
+        ):
             if invalidatee not in seen:
                 seen.add(invalidatee)
-                invalidate_attrs(obj, invalidatee, invalidation_map, seen)
+                stale.append(invalidatee)
+                pending.append(invalidatee)
+
+    spec_delattr = type(obj).__delattr__
+    for invalidatee in stale:
+        try:
+            if hasattr(spec_delattr, "__raw__"):
+                spec_delattr(obj, invalidatee, skip_invalidation=True)
+            else:  # pragma: no cover; user-provided __delattr__
+                delattr(obj, invalidatee)
+        except AttributeError:
+            pass
 
 
 def mutate_value(
